@@ -127,10 +127,14 @@ def random_exc(r, honest=True, maxr=MAXR):
 TOK0S = [0, -1, 254, 72057594037927934]
 
 
-def exe_line(kind, reqs, fates, seed=12345, cmid0=100, smid0=-1, adelay=300, dflt=3, nstart=0, method=1, tok0=0):
+def exe_line(kind, reqs, fates, seed=12345, cmid0=100, smid0=-1, adelay=300, dflt=3, nstart=0, method=1, tok0=0,
+             keepalive=0):
+    """keepalive > 0: coap_context_set_keepalive on the client; the pings (answered by RST) use
+    message ids, so the client's mids are no longer consecutive and the model is not replayed on
+    such a run - the acceptor, the liveness oracle and the server oracle still judge it"""
     q = " ".join("%d:%d:%d" % (s, ok, th) for (s, ok, th) in reqs)
-    return "exe K %s P %d M %d %d T %d A %d E %d N %d H %d Q %s F %s" % (
-        kind, seed, cmid0, smid0, tok0, adelay, dflt, nstart, method, q, " ".join(fates))
+    return "exe K %s P %d M %d %d T %d G %d A %d E %d N %d H %d Q %s F %s" % (
+        kind, seed, cmid0, smid0, tok0, keepalive, adelay, dflt, nstart, method, q, " ".join(fates))
 
 
 def exhaustive_fates(n, dup_delay):
